@@ -8,7 +8,14 @@ from typing import Any, Callable, Iterator, Literal, Optional, Sequence
 from zipfile import ZipFile
 
 from ._audit import VALID_NODE_CHILD_TYPES, Node, get_tree
-from ._general import BytearrayNode, BytesNode, FunctionNode, JsonNode, ListNode
+from ._general import (
+    BytearrayNode,
+    BytesNode,
+    FunctionNode,
+    JsonNode,
+    ListNode,
+    SliceNode,
+)
 from ._numpy import NdArrayNode
 from ._scipy import SparseMatrixNode
 from ._utils import LoadContext
@@ -20,6 +27,7 @@ SKIPPED_TYPES = (
     FunctionNode,
     JsonNode,
     NdArrayNode,
+    SliceNode,
     SparseMatrixNode,
 )
 
@@ -269,6 +277,11 @@ def walk_tree(
                 level=level,
                 is_last=i == num_nodes,
             )
+        return
+
+    # None, str and BytesIO children hold no further nodes; the audit skips them
+    # as well (see Node.get_unsafe_set)
+    if node is None or isinstance(node, (str, io.BytesIO)):
         return
 
     # NO MATCH: RAISE ERROR
